@@ -60,6 +60,31 @@ pub(super) fn validate_type_conditions(
                 )));
             }
         }
+        TypeId::Object(object_id) => {
+            // Inside an object, a different type condition can only apply if it names an
+            // interface the object implements or a union the object is a member of.
+            let applies = match selected_type {
+                TypeId::Interface(interface_id) => query
+                    .schema
+                    .get_object(object_id)
+                    .implements_interfaces
+                    .contains(&interface_id),
+                TypeId::Union(union_id) => query
+                    .schema
+                    .get_union(union_id)
+                    .variants
+                    .contains(&parent_schema_type_id),
+                _ => false,
+            };
+
+            if !applies {
+                return Err(QueryValidationError::new(format!(
+                    "The spread {}... on {} is not valid.",
+                    parent_schema_type_id.name(query.schema),
+                    selected_type.name(query.schema),
+                )));
+            }
+        }
         _ => (),
     }
 
